@@ -14,6 +14,7 @@ from .oracle import penalties as OP
 from .oracle import datafits as OD
 
 MAX_EVENTS = 1500
+INPLACE_SOLVERS = ("AndersonCD", "GroupBCD", "MultiTaskBCD", "ProxNewton", "GroupProxNewton")
 
 
 def _explanatory(exc):
@@ -132,6 +133,7 @@ class Tracer:
         # solvers whose update of a null column is an exact proximal minimisation (one epoch zeroes it);
         # FISTA / LBFGS only shrink it step by step
         self.zc_strict = int(type(slv).__name__ not in ("FISTA", "LBFGS"))
+        self.solver_name = type(slv).__name__
 
     def _zero_cols_zero(self, wc):
         """1 iff every penalised coefficient (group, row) of an all-zero column (group) is exactly zero (C19)"""
@@ -221,14 +223,22 @@ class Tracer:
         viol = self._viol(wc) if st["fin"] else float("nan")
         lo, hi = PB.approx_band(st["obj"], self.scale)
         vlo, vhi = PB.approx_band(viol, self.scale)
-        same_buf = int(w_init is not None and w is w_init)
+        # C05: "on return the caller's model-fit buffer equals X w + b for the RETURNED coefficients". It is claimed
+        # for the solvers that take the caller's buffers as their working arrays (all of them update in place); the
+        # returned array being another object than w_init does not lift the obligation
+        inplace = getattr(self, "solver_name", "") in INPLACE_SOLVERS
+        same_buf = int(w_init is not None and Xw_init is not None and (inplace or w is w_init))
         cons_buf = 1
         if w_init is not None and Xw_init is not None and st["fin"]:
-            z = PB.predictor(self.prob, np.asarray(w_init, dtype=float))
+            z = PB.predictor(self.prob, np.asarray(wc, dtype=float))
+            if np.shape(w_init) == np.shape(wc) and inplace:
+                # ... and the caller's coefficient array holds the returned coefficients
+                if float(np.max(np.abs(np.asarray(w_init, dtype=float) - np.asarray(wc, dtype=float)))) > 0:
+                    cons_buf = 0
             Xb = np.asarray(Xw_init, dtype=float)
             if Xb.shape != z.shape:
                 cons_buf = 0
-            else:
+            elif cons_buf:
                 d = float(np.max(np.abs(Xb - z))) if z.size else 0.0
                 cons_buf = int(PB.cons_ok(d, float(np.max(np.abs(z))) if z.size else 1.0))
         objs = np.asarray(objs, dtype=float).ravel()
